@@ -177,7 +177,10 @@ where
 
     // Prepare the default SolOut (wrapping user callback if provided)
     let n_states = y0.len();
-    let mut default_solout = DefaultSolOut::new(f, options.t_eval.clone(), options.dense_output, options.first_step, x0, n_states);
+    // The handler puts the first sample at x0 + first_step in the direction of integration: it gets the
+    // magnitude of first_step (the solvers ignore its sign too), and never more than the interval.
+    let first_output = options.first_step.map(|h| h.abs().min((xend - x0).abs()));
+    let mut default_solout = DefaultSolOut::new(f, options.t_eval.clone(), options.dense_output, first_output, x0, n_states);
 
     // Dispatch by method
     let result = match options.method {
